@@ -72,6 +72,19 @@ def _is_setting(t, name: str, dflt) -> bool:
     return b == ('const', dflt) and type(b[1]) is type(dflt)
 
 
+def _reads_setting_expr(ctx: Ctx, expr: Optional[ast.AST], inst, name: str) -> bool:
+    """`expr` reads the policy's `name` setting: an attribute `name` of an object whose class is the retry policy (or
+    the policy protocol) - however the property itself is implemented - or a term recognised by _reads_setting."""
+    if expr is None:
+        return False
+    e, i = sym.resolve_value(ctx.p, expr, inst)
+    if isinstance(e, ast.Attribute) and e.attr == name:
+        bt = FuncEnv.of(ctx.p, i.unit).type_of(e.value)
+        if bt[0] == 'class' and (bt[1] is _policy_class(ctx) or name in bt[1].methods and 'Retry' in bt[1].name):
+            return True
+    return _reads_setting(sym.term(ctx.p, expr, inst), name)
+
+
 def _reads_setting(t, name: str) -> bool:
     """t is the policy's `name` setting whatever default it applies (RT-1 decides the default)."""
     if isinstance(t, tuple) and t and t[0] == 'or':
@@ -81,19 +94,50 @@ def _reads_setting(t, name: str) -> bool:
 
 def rule_policy_defaults(ctx: Ctx, out: Collector) -> None:
     """RT-1: the policy maps the node's settings with the documented defaults: delay or 0, attempts or 1,
-    exceptions or (Exception,)."""
+    exceptions or (Exception,).  Decided by interpreting each property over the value classes of the node's
+    setting: unset (None), falsy (0 / empty), set (a truthy value)."""
+    from ..absint import AClass, AObj, Interp, Oracle, enumerate_outcomes
     ci = _policy_class(ctx)
     expect = {'delay': 0, 'attempts': 1, 'exceptions': 'exc'}
+    SET = AObj(('ext', 'builtins.object'), {}, tag='configured-value')
     for name, dflt in expect.items():
-        t, m = _policy_term(ctx, ci, name)
+        m = ci.methods[name]
         cons = f'{m.module.name}::{m.qualname}::<node>.{name} or <documented default>'
-        detail = sym.show(t) if t is not None else 'not a single return'
-        if t is not None and _is_setting(t, name, dflt):
+        table = {}
+        problems = []
+        for label, val in (('unset (None)', None), ('falsy', 0 if name != 'exceptions' else ()), ('set', SET)):
+            def run(oracle: Oracle, val=val):
+                interp = Interp(ctx.p, oracle)
+                node = AObj(('ext', 'NodeBase'), {'delay': None, 'attempts': None, 'exceptions': None, 'use_default': False})
+                node.attrs[name] = val
+                pol = AObj(ci, {'node': node})
+                return interp.call_unit(m, [], {}, pol, None)
+            try:
+                outs = enumerate_outcomes(run)
+            except AnalysisError as ex:
+                raise AnalysisError(f'{m.fid}: {ex}')
+            vals = []
+            for o in outs:
+                v = o[1] if o[0] == 'value' else f'raises {o[1]}'
+                vals.append(v)
+            table[label] = vals
+
+            def is_default(v) -> bool:
+                if dflt == 'exc':
+                    return isinstance(v, tuple) and len(v) == 1 and isinstance(v[0], AClass) and v[0].ref == ('ext', 'builtins.Exception')
+                return v == dflt and type(v) is type(dflt)
+            if label == 'set':
+                if not (len(vals) == 1 and vals[0] is SET):
+                    problems.append(f'a configured {name} yields {vals}')
+            elif not (len(vals) == 1 and is_default(vals[0])):
+                problems.append(f'{label} {name} yields {vals}')
+        detail = '; '.join(f'{k} -> {v}' for k, v in table.items())
+        if not problems:
             out.ok('RT-1', cons, ctx.p.loc(m, m.node), detail)
         else:
-            out.bad('RT-1', cons, ctx.p.loc(m, m.node), f'the retry policy computes {name} as `{detail}` instead of '
-                                                        f'`node.{name} or {"(Exception,)" if dflt == "exc" else dflt}`: the configured / '
-                                                        f'default {name} is not applied')
+            out.bad('RT-1', cons, ctx.p.loc(m, m.node), f'the retry policy does not compute {name} as '
+                                                        f'`node.{name} or {"(Exception,)" if dflt == "exc" else dflt}` ({"; ".join(problems)}): '
+                                                        f'the configured / default {name} is not applied')
 
 
 def _innermost_try(loop_stmt: ast.AST, call: ast.AST) -> Optional[ast.Try]:
@@ -140,7 +184,7 @@ def rule_retry_loop(ctx: Ctx, out: Collector) -> None:
     else:
         h1, h2 = handlers
         t1 = sym.term(ctx.p, h1.type, g.root_inst) if h1.type is not None else None
-        first_ok = _reads_setting(t1, 'exceptions')
+        first_ok = _reads_setting_expr(ctx, h1.type, g.root_inst, 'exceptions')
         if not first_ok:
             problems.append(f'the first handler catches {unparse(h1.type) if h1.type is not None else "everything"}, not the '
                             f'policy\'s exceptions setting')
@@ -179,12 +223,12 @@ def rule_retry_loop(ctx: Ctx, out: Collector) -> None:
     delay_ok = False
     for sl in sleeps:
         t = sym.term(ctx.p, sl.node.args[0], sl.inst) if sl.node.args else None
-        if _reads_setting(t, 'delay'):
+        if sl.node.args and _reads_setting_expr(ctx, sl.node.args[0], sl.inst, 'delay'):
             delay_ok = True
     if not delay_ok:
         problems.append('no asyncio.sleep(<policy>.delay) in the loop')
     # a path around the loop (head -> ... -> back to head) avoiding the sleep
-    sleep_ids = {sl.id for sl in sleeps if sl.node.args and _reads_setting(sym.term(ctx.p, sl.node.args[0], sl.inst), 'delay')}
+    sleep_ids = {sl.id for sl in sleeps if sl.node.args and _reads_setting_expr(ctx, sl.node.args[0], sl.inst, 'delay')}
     nxt = [m for m, lab in g.succ[head.id] if lab in ('n', 'T')]
     for b_ in nxt:
         pth = find_path(g, b_, {head.id}, avoid=sleep_ids, labels=EXC_LABELS)
@@ -274,9 +318,7 @@ def _counter(ctx: Ctx, unit: FuncUnit, g: Graph, head: Ev, region: Set[int]) -> 
             continue
         for c in ast.walk(expr):
             if isinstance(c, ast.Compare) and len(c.ops) == 1:
-                lt = sym.term(ctx.p, c.left, ev.inst)
-                rt_ = sym.term(ctx.p, c.comparators[0], ev.inst)
-                if _reads_setting(lt, 'attempts') or _reads_setting(rt_, 'attempts'):
+                if _reads_setting_expr(ctx, c.left, ev.inst, 'attempts') or _reads_setting_expr(ctx, c.comparators[0], ev.inst, 'attempts'):
                     sites.append((ev, c))
     if not sites:
         return 'unknown', 'no comparison with <policy>.attempts in the retry loop'
@@ -285,7 +327,7 @@ def _counter(ctx: Ctx, unit: FuncUnit, g: Graph, head: Ev, region: Set[int]) -> 
     ev0, cmp0 = sites[0]
     op = type(cmp0.ops[0])
     left, right = cmp0.left, cmp0.comparators[0]
-    if _reads_setting(sym.term(ctx.p, left, ev0.inst), 'attempts'):
+    if _reads_setting_expr(ctx, left, ev0.inst, 'attempts'):
         left, right = right, left
         op = _FLIP.get(op)
     if op is None or not isinstance(left, ast.Name):
